@@ -7,18 +7,20 @@ INVS = "LocationPartition DeliveredIntact InvokedIffValid RejectedIs4xxNamingRul
 VALIDATION_NAMES = {"missing_field", "invalid_range", "invalid_length", "invalid_enum_value", "invalid_pattern", "invalid_format", "invalid_field_type"}
 
 
+_MEMO_LOCK = __import__("threading").Lock()
+
+
 def gen_vectors(ctx, fam, npa=1, nra=1, deviations="{}", simulate=None, depth=None, label=None):
-    memo = getattr(ctx, "_gen_vectors_memo", None)
-    if memo is None:
-        memo = ctx._gen_vectors_memo = {}
-    mk = (fam, npa, nra, deviations, simulate, depth)
-    if simulate is None and mk in memo:         # the enumeration is a function of its constants: one TLC run per check run
+    if simulate is not None:
+        return _gen_vectors(ctx, fam, npa, nra, deviations, simulate, depth, label)
+    with _MEMO_LOCK:        # (families of a check run side by side: the second caller waits for the first one's enumeration)
+        memo = getattr(ctx, "_gen_vectors_memo", None)
+        if memo is None:
+            memo = ctx._gen_vectors_memo = {}
+        mk = (fam, npa, nra, deviations, simulate, depth)
+        if mk not in memo:         # the enumeration is a function of its constants: one TLC run per check run
+            memo[mk] = _gen_vectors(ctx, fam, npa, nra, deviations, simulate, depth, label)
         return [dict(v) for v in memo[mk]]
-    out = _gen_vectors(ctx, fam, npa, nra, deviations, simulate, depth, label)
-    if simulate is None:
-        memo[mk] = out
-        return [dict(v) for v in out]
-    return out
 
 
 def _gen_vectors(ctx, fam, npa, nra, deviations, simulate, depth, label):
@@ -33,6 +35,17 @@ def _gen_vectors(ctx, fam, npa, nra, deviations, simulate, depth, label):
             seen.add(k)
             out.append(v)
     return out
+
+
+def expect_violations(ctx, runs):
+    """the vacuity guards of a check (with a named deviation enabled TLC must find a counterexample), side by side:
+    runs = [(consts, label)]"""
+    import concurrent.futures as cf
+    with cf.ThreadPoolExecutor(max_workers=4) as ex:
+        futs = [ex.submit(ctx.mc_expect_violation, "mc/MC_HTTPTransport", consts=c, label=l, workers=4) for c, l in runs]
+        for f in futs:
+            f.result()          # core.Infra when a guard found nothing
+    return True
 
 
 def combine_cases(ctx, vectors1, n, seed, fam="req", mode="random"):
@@ -233,7 +246,20 @@ def project(v, events):
     return o
 
 
-def run_family(ctx, fam, vectors, per_design=40, parallel_args=None):
+def side_by_side(ctx, jobs):
+    """Start independent stretches of a check (TLC enumeration + generate / build / run of one family each) side by side
+    and hand back their futures in order: while one family is being judged (TLC: explanations, trace validation) the next
+    is still compiling.  The harness tools are built first, once.  Verdicts are filed by the caller, in the main thread."""
+    import concurrent.futures as cf
+    ctx.gobuild("cmd/genhost")
+    ctx.gobuild("cmd/mkrunner")
+    pool = cf.ThreadPoolExecutor(max_workers=max(1, len(jobs)))
+    futs = [pool.submit(j) for j in jobs]
+    pool.shutdown(wait=False)
+    return futs
+
+
+def run_family(ctx, fam, vectors, per_design=40, parallel_args=None, name=None):
     """Drive the vectors through real generated code. Returns (cases, pipeline); a case is
     dict(v=vector, obs=projection, events=events, id=...); designs goa refused or that failed to compile are
     reported through pipeline.failed and their cases are skipped."""
@@ -244,7 +270,7 @@ def run_family(ctx, fam, vectors, per_design=40, parallel_args=None):
             index[k] = len(shapes)
             shapes.append({"pa": v["pa"], "ra": v["ra"], "tagged": v.get("tagged", False)})
     designs, where = hg.pack_designs(shapes, per_design)
-    pl = hg.Pipeline(ctx, "gen-" + fam)
+    pl = hg.Pipeline(ctx, name or ("gen-" + fam))
     pl.prepare(designs)
     bins = pl.build_runners(designs)
     ctx.log("%s: %d vectors, %d method shapes, %d designs (%d unusable), %d methods set aside as uncompilable" % (
@@ -440,10 +466,21 @@ def trace_lines(c):
     return out
 
 
+def odd_cases(cases):
+    """the executed cases that did not behave as the mechanism without deviations (in the emitted terminal state)"""
+    return [c for c in cases if obs_sig(c["v"], c["obs"]) != mech_sig(c["v"])]
+
+
+def prepare_explanations(ex, cases, pending):
+    """one TLC run (Explain_HTTPTransport) for everything a judge will ask about: the cases it is going to report and the
+    cases validate_cases has to tell apart (explained by a deviation / to be validated as a trace)"""
+    ex.prepare([c["v"] for c in pending] + [c["v"] for c in odd_cases(cases)])
+
+
 def explained_ids(ex, cases):
     """ids of the cases whose observed behaviour is exactly the mechanism's under some named deviation
     (they are reported under that deviation's key by the checks and stay out of the trace)."""
-    odd = [c for c in cases if obs_sig(c["v"], c["obs"]) != mech_sig(c["v"])]
+    odd = odd_cases(cases)
     hits = ex.explain_all([(c["v"], c["obs"]) for c in odd])
     return {c["id"] for c, h in zip(odd, hits) if h is not None}
 
